@@ -402,6 +402,7 @@ class _SutReferenceNormalizer(cst.CSTTransformer):
         self._module_alias = module_alias
         self._bindings: dict[str, _SutBinding] = {}
         self._replacements: dict[int, cst.BaseExpression] = {}
+        self._parameter_names: set[int] = set()
 
     def _resolve(self, chain: list[str]) -> list[str] | None:
         root, *rest = chain
@@ -488,7 +489,17 @@ class _SutReferenceNormalizer(cst.CSTTransformer):
     ) -> cst.BaseExpression:
         return self._replacements.pop(id(original_node), updated_node)
 
+    def visit_Arg(self, node: cst.Arg) -> bool:  # noqa: N802
+        # The keyword of a call argument (``factor`` in ``f(factor=x)``) names a parameter of
+        # the callee. It is not a reference, even if the module under test also exports
+        # something of that name; rewriting it would produce ``f(alias.factor=x)``.
+        if node.keyword is not None:
+            self._parameter_names.add(id(node.keyword))
+        return True
+
     def visit_Name(self, node: cst.Name) -> bool:  # noqa: N802
+        if id(node) in self._parameter_names:
+            return True
         replacement = self._resolve([node.value])
         if replacement is not None:
             self._replacements[id(node)] = _build_chain(replacement)
